@@ -28,6 +28,8 @@ CLASSES = (
     'select-empty-case',        # bodies slide to other CASE values: different results
     'assoc-selector-crash',     # valid ASSOCIATE selectors make the frontend raise (source rejected)
     'double-not-unparsable',    # regenerated `.not..not.p` is rejected by the frontend
+    'if-body-dropped-on-swallowed-exception',  # a construct that makes the frontend raise TypeError/NotImplementedError, inside an
+                                # IF branch: as_tuple(<generator>) swallows the exception and the whole branch body is dropped
     'construct-name-exit-cycle',  # `CYCLE name` loses the construct name (other loop is cycled); `EXIT name` crashes the frontend
 )
 _RE_NAMED = re.compile(r'^[^!\n]*\b(exit|cycle)[ \t]+[a-z_]\w*[ \t]*$', re.I | re.M)
@@ -77,12 +79,18 @@ def _sub_ok(e):
     return False
 
 
+def _bad_assoc(s):
+    return fir._h(s) == 'assoc' and not all(_sel_ok(b[1]) for b in s[1])
+
+
 def c01_flags(prog):
     fl = set(fir_flags(prog)) & {'select-empty-case', 'double-not-unparsable'}
     for _n, _a, _d, body in fir.prog_units(prog):
         for s in fir.iter_stmts(body):
-            if fir._h(s) == 'assoc' and not all(_sel_ok(b[1]) for b in s[1]):
+            if _bad_assoc(s):
                 fl.add('assoc-selector-crash')
+            if fir._h(s) == 'if' and any(_bad_assoc(t) for t in fir.iter_stmts(list(s[2]) + list(s[3]))):
+                fl.add('if-body-dropped-on-swallowed-exception')
     return fl
 
 
@@ -193,19 +201,24 @@ class C01(Prop):
     def oracle_fir(self, prog, src, style, inputs, thorough):
         out = []
         flags = c01_flags(prog) if prog is not None else (c02.text_flags(src) & set(CLASSES))
+        if prog is not None and (len(prog) < 3 or not all(fir._h(u) == 'unit' and len(u) == 5 for u in prog[2:])):
+            raise ValueError('malformed program')
         if src is None:
             src = fir.emit_fortran(prog, wrap_program=False)
         try:
             sf0, t1 = regenerate(src, style)
         except Exception as e:  # noqa: BLE001
             cls = 'assoc-selector-crash' if ('assoc-selector-crash' in flags or (prog is None and 'associate' in src.lower())) else None
+            if prog is not None and len(prog) < 3:
+                raise ValueError('malformed program')
             return [Failure(f'the frontend rejects valid source ({type(e).__name__}: {str(e)[:80]})', cls)]
         try:
             e0 = fir.export_unit(sf0)
         except fir.Unsupported as e:
             return [Failure(f'IR of a FIR program is not exportable: {e.kind}', 'select-empty-case' if 'select-empty-case' in flags else None)]
+        swallowed = 'if-body-dropped-on-swallowed-exception' if 'if-body-dropped-on-swallowed-exception' in flags else None
         if prog is not None and 'select-empty-case' not in flags and dumps(e0) != dumps(fir.normalize(prog)):
-            out.append(Failure('the frontend did not read what the harness wrote: export_unit(parse(emit(p))) != normalize(p)', None))
+            out.append(Failure('the frontend did not read what the harness wrote: export_unit(parse(emit(p))) != normalize(p)', swallowed))
         try:
             sf1 = parse(t1)
             e1 = fir.export_unit(sf1)
@@ -215,7 +228,7 @@ class C01(Prop):
         ref_prog = prog if prog is not None else e0
         if 'select-empty-case' in flags and prog is None:
             ref_prog = None
-        cls_sem = 'select-empty-case' if 'select-empty-case' in flags else None
+        cls_sem = 'select-empty-case' if 'select-empty-case' in flags else swallowed
         # python interpreter: original program (as generated / as first read) vs regenerated program (as re-read)
         for k, ins in enumerate(inputs):
             if ref_prog is None:
